@@ -51,6 +51,24 @@ pub trait NamingContext {
         }
     }
 
+    /// Compute the serialized name for an enum variant based on serde attributes
+    ///
+    /// Same priority as `compute_field_name`, but an enum-level `#[serde(rename_all = "...")]`
+    /// follows serde's rule for variants (`RenameRule::apply_to_variant`), not the one for fields
+    fn compute_variant_name(
+        &self,
+        variant_name: &str,
+        variant_rename: &Option<String>,
+        enum_rename_all: &Option<RenameRule>,
+    ) -> String {
+        if variant_rename.is_none() {
+            if let Some(convention) = enum_rename_all {
+                return convention.apply_to_variant(variant_name);
+            }
+        }
+        self.compute_field_name(variant_name, variant_rename, enum_rename_all)
+    }
+
     /// Compute the serialized name for a parameter based on serde attributes
     ///
     /// Priority:
@@ -325,6 +343,20 @@ impl FieldContext {
 
         self
     }
+
+    /// Populate this context from the FieldInfo of an enum variant
+    pub fn from_variant_info<V: TypeVisitor>(
+        self,
+        variant: &FieldInfo,
+        enum_rename_all: &Option<RenameRule>,
+        visitor: &V,
+    ) -> Self {
+        let serialized_name =
+            self.compute_variant_name(&variant.name, &variant.serde_rename, enum_rename_all);
+        let mut context = self.from_field_info(variant, enum_rename_all, visitor);
+        context.serialized_name = serialized_name;
+        context
+    }
 }
 
 /// Template context wrapper for StructInfo with computed TypeScript-specific fields
@@ -366,11 +398,12 @@ impl StructContext {
             .fields
             .iter()
             .map(|field| {
-                FieldContext::new(&self.config).from_field_info(
-                    field,
-                    &struct_info.serde_rename_all,
-                    visitor,
-                )
+                let context = FieldContext::new(&self.config);
+                if struct_info.is_enum {
+                    context.from_variant_info(field, &struct_info.serde_rename_all, visitor)
+                } else {
+                    context.from_field_info(field, &struct_info.serde_rename_all, visitor)
+                }
             })
             .collect();
 
